@@ -25,7 +25,18 @@ Theorem C10_ack_carries_advertised_policy : forall st toks,
 Proof. exact acks_sts_value. Qed.
 Print Assumptions C10_ack_carries_advertised_policy.
 
-(* One Connect call: the connection on which the upgrade happens logs no write in or after
+(* beginUpgrade is a transient flag: a Connect call that starts with it cleared (a new client;
+   every call after one that returned) returns with it cleared.  The theorems about calls
+   below assume it cleared at the start; this lemma discharges that for every later call. *)
+Theorem C10_begin_upgrade_cleared : forall ord cfg port conns s,
+  begin_upgrade s = false -> begin_upgrade (snd (start_conn ord cfg port s conns)) = false.
+Proof. exact start_conn_begin. Qed.
+Print Assumptions C10_begin_upgrade_cleared.
+
+(* One Connect call.  No hypothesis restricts cs_end c: whether the teardown of the plaintext
+   connection reports nil (the client's own Close()) or an I/O error (the server hangs up at
+   the moment of the acknowledgement), the call redials (52091d0).
+   The connection on which the upgrade happens logs no write in or after
    the acknowledgement (its last event's output is exactly the upgrade, nothing follows on
    that connection), and the SAME call goes on with the remaining scripts under the new
    policy: the next dial goes to the policy port with TLS. *)
@@ -46,10 +57,18 @@ Theorem C10_upgrade : forall ord cfg port s c rest st outs,
 Proof. exact upgrade_connect. Qed.
 Print Assumptions C10_upgrade.
 
+(* the teardown outcome of the connection that is given up is irrelevant to the whole call *)
+Theorem C10_upgrade_teardown_irrelevant : forall ord cfg port s c rest st outs e1 e2,
+  c_ssl cfg = false -> sts_enabled s = false -> cs_dial_ok c = true -> c_tracking cfg = true ->
+  run_events ord cfg false (cap_init s) (cs_events c) = (st, outs, StopUpgrade) ->
+  start_conn ord cfg port s (with_end e1 c :: rest) = start_conn ord cfg port s (with_end e2 c :: rest).
+Proof. exact upgrade_teardown_irrelevant. Qed.
+Print Assumptions C10_upgrade_teardown_irrelevant.
+
 (* ---- persistence ----------------------------------------------------------- *)
 (* While a policy is held, a Connect call dials exactly once: the policy port, with TLS. *)
 Theorem C10_persist : forall ord cfg port s c rest,
-  sts_enabled s = true ->
+  begin_upgrade s = false -> sts_enabled s = true ->
   exists l ret s', start_conn ord cfg port s (c :: rest) = ([l], ret, s') /\
                    dialled l (upgrade_port s) true.
 Proof. exact persist_call. Qed.
@@ -58,7 +77,7 @@ Print Assumptions C10_persist.
 (* … and the policy (same port) is still held after the call unless the dial failed with
    the policy expired and fallback allowed, or the server sent an invalid policy. *)
 Theorem C10_persist_retained : forall ord cfg port s c rest,
-  sts_enabled s = true ->
+  begin_upgrade s = false -> sts_enabled s = true ->
   let r := start_conn ord cfg port s (c :: rest) in
   (sts_enabled (snd r) = true /\ upgrade_port (snd r) = upgrade_port s) \/
   (snd (fst r) = RSTSUpgradeFailed /\ cs_dial_ok c = false /\
@@ -89,6 +108,7 @@ Print Assumptions C10_no_downgrade_dropped_iff.
 (* A failed handshake under a policy: an error (not ErrSTSUpgradeFailed: tlsHandshake is
    lazy, the failure surfaces as an I/O error), no other dial, the policy kept as it is. *)
 Theorem C10_no_downgrade_handshake : forall ord cfg port s c rest,
+  begin_upgrade s = false ->
   sts_enabled s = true -> cs_dial_ok c = true -> cs_hs_ok c = false ->
   start_conn ord cfg port s (c :: rest) = ([mkLog (upgrade_port s) true true []], ROther, s).
 Proof. exact no_downgrade_handshake. Qed.
@@ -108,6 +128,7 @@ Print Assumptions C10_invalid_ack.
    in answer to the acknowledgement; the policy is gone and server() is the configured
    address again. *)
 Theorem C10_invalid : forall ord cfg port s c rest st outs,
+  begin_upgrade s = false ->
   cs_dial_ok c = true -> (c_ssl cfg || sts_enabled s = true -> cs_hs_ok c = true) -> c_tracking cfg = true ->
   run_events ord cfg (c_ssl cfg || sts_enabled s) (cap_init s) (cs_events c) = (st, outs, StopError) ->
   start_conn ord cfg port s (c :: rest) =
@@ -132,6 +153,7 @@ Print Assumptions C10_tls_ignores_port.
 (* … and nothing a server says on a TLS connection causes another dial or changes the port
    of the policy, short of an invalid policy (which drops it). *)
 Theorem C10_tls_single_dial : forall ord cfg port s c rest,
+  begin_upgrade s = false ->
   c_ssl cfg || sts_enabled s = true ->
   exists l ret s', start_conn ord cfg port s (c :: rest) = ([l], ret, s') /\
                    dialled l (server_port port s) true /\
@@ -151,6 +173,7 @@ Proof. exact ack_disabled_event. Qed.
 Print Assumptions C10_disabled_ack.
 
 Theorem C10_disabled : forall ord cfg port s c rest,
+  begin_upgrade s = false ->
   c_disable_sts cfg = true ->
   exists l ret s', start_conn ord cfg port s (c :: rest) = ([l], ret, s') /\
                    dialled l (server_port port s) (c_ssl cfg || sts_enabled s) /\
@@ -184,6 +207,7 @@ Print Assumptions C10_upgrade_from_ack.
 
 Theorem C10_invalid_from_ack : forall ord cfg port s c rest pre now a toks post st1 outs1,
   let tls := c_ssl cfg || sts_enabled s in
+  begin_upgrade s = false ->
   cs_dial_ok c = true -> (tls = true -> cs_hs_ok c = true) -> c_tracking cfg = true ->
   c_disable_sts cfg = false ->
   cs_events c = pre ++ (now, ack_params a toks) :: post ->
@@ -199,6 +223,7 @@ Print Assumptions C10_invalid_from_ack.
 
 (* ---- persistence over any number of later Connect calls --------------------- *)
 Theorem C10_persist_calls : forall ord cfg port calls s k sb c res,
+  begin_upgrade s = false ->
   nth_error (policies_before ord cfg port s calls) k = Some sb ->
   nth_error calls k = Some c -> c <> [] ->
   nth_error (connects ord cfg port s calls) k = Some res ->
@@ -217,6 +242,7 @@ Proof. exact possible_caps_sts. Qed.
 Print Assumptions C10_requested_iff.
 
 Theorem C10_ssl : forall ord cfg port s c rest,
+  begin_upgrade s = false ->
   c_ssl cfg = true -> aget s_sts (c_supported cfg) = None -> sts_enabled s = false ->
   honest_run ord cfg true (cap_init s) (if c_tracking cfg then cs_events c else []) ->
   exists l ret s', start_conn ord cfg port s (c :: rest) = ([l], ret, s') /\
